@@ -148,6 +148,8 @@ CASES = [
      ("H", "f"), WC_EXT),
     ("mutexnew", "pub struct G { pub st: Mutex<S>, pub n: u64 }\nimpl G { fn new(s: S, n: u64) -> Self { Self { st: Mutex::new(s), n } } }",
      ("expect", ["{ st := s, n := n }"]), ("G", "new")),
+    ("letlit-logonly", "pub struct P { pub a: u64, pub b: u32 }\nfn f(x: u64, y: u16) -> bool { let p = P { a: x + 1, b: y as u32 }; warn!(\"p {:?}\", p); true }",
+     ("expect", ["Rs.uadd Rs.U64_MAX x 1", "pure true"])),
     ("boxnew", "pub struct R { pub a: u64 }\nfn f(x: u64) -> Result<Box<R>, ()> { Ok(Box::new(R { a: x })) }", ("expect", ["pure { a := x }"])),
     ("letany", "fn f(o: Option<Sk>) -> Option<Ds> { let r = o.map(|s| Ds(s[..].try_into().unwrap())); r }",
      ("expect", ["(ext_let_r : (Option Sk) → (Option Ds))", "let r := (ext_let_r o)"]), (None, "f"),
